@@ -800,6 +800,9 @@ def ex_pipeline(c):
     e.update(outcome="ok", kind=kx if kx == ky else kx + "/" + ky, yf=fxs(y0 * sc), out=vec(ga * sc) if ga.ndim == 1 else [[5, 0, 0]],
              nthbits=[bits3(v) for v in gxa[::c["n"]]], scale_pow10=p,
              avgxbits=[bits3(v) for v in av[0]] if aoc == "ok" else [], avgy=fxs((np.asarray(av[1]) - L) * sc) if aoc == "ok" else [])
+    if c.get("wide") and c["trule"] == "rectangle" and ga.ndim == 1 and len(ga) == (len(y0) - 1) * c["n"] + 1 and np.all(y0[:-1] != 0):
+        # wide dynamic range: every interval's samples relative to that interval's own original average (see JPipeline)
+        e["norm"] = [fxs(ga[k * c["n"]:(k + 1) * c["n"]] / y0[k]) for k in range(len(y0) - 1)]
     return e
 
 
